@@ -92,7 +92,7 @@ def main(tier):
     rep.functions = src_hash(mb.BaseMatcher.match, mb.BaseMatcher._create_start_nodes, mb.BaseMatcher._match_states,
                              mb.BaseMatcher._match_non_emitting_states, mb.LatticeColumn.set_delayed)
     budget = 60 if tier == 'quick' else 900
-    res = gabs.run_all(rep, run_instance, instances(tier), budget, 16 * (100 if tier == 'quick' else 1500))
+    res = gabs.run_all(rep, run_instance, instances(tier), budget, 16 * (100 if tier == 'quick' else 900))
     rep.bounds = dict(graphs="oneway2, line2, oneway3, oneway4" if tier == 'quick' else "all digraphs <=3 nodes/<=4 edges, fork, oneway4",
                       T="<=4 (2-edge graphs) / 3", splits="every one- and two-cut schedule", config="max_dist or min_prob_norm symbolic (stop before/inside/after the prefix reachable); non-emitting on/off")
     rep.outside = ["rounding", "graphs/traces beyond the bound", "width pruning combined with extension (C09 covers well-formedness there)"]
